@@ -872,7 +872,8 @@ def check_scipy_run(c, ialts, call):
                 if m:
                     bound, got = float(m.group(1)), float(m.group(2))
                     if abs(got - bound) <= 1e-9 * max(1.0, abs(bound)) and any(
-                            v in (q2f(c["bnd"][n]["lo"]), q2f(c["bnd"][n]["hi"])) for n, v in zip(names, args)):
+                            abs(v - b) <= 1e-9 * max(1.0, abs(b)) for n, v in zip(names, args)
+                            for b in (q2f(c["bnd"][n]["lo"]), q2f(c["bnd"][n]["hi"])) if not np.isinf(b)):
                         return None, "optimiser-on-bound (read-back rounding)"
             return ("error:in-box" if bad else "error:spurious"), None
         if call.exc_from == "optimiser":
